@@ -171,6 +171,10 @@ pub fn sigs() -> Vec<Sig> {
         s(vec![t(&[a(Int), Int, a(Str)])], t(&[a(Int), Int, a(Str)])),
         s(vec![a(t(&[a(Int), Str]))], a(t(&[a(Int), Str]))),
         s(vec![o(a(Int)), a(o(Str))], t(&[o(a(Int)), a(o(Str))])),
+        // several places for one and the same array object
+        s(vec![a(Str), a(Str), Int], t(&[a(Str), a(Str), Int])),
+        s(vec![o(a(Int)), t(&[a(Int), a(Int)])], t(&[o(a(Int)), t(&[a(Int), a(Int)])])),
+        s(vec![a(a(Int)), a(Int)], t(&[a(a(Int)), a(Int)])),
         // arity 3
         s(vec![Int, Float, Str], t(&[Int, Float, Str])),
         s(vec![Str, Unit, Int], t(&[Str, Int])),
